@@ -385,6 +385,7 @@ def build(active_known=frozenset()):
     c.ensures("inside a syntax-quote the gensym environment on top of the stack is a new, empty one (auto-gensyms are fresh across templates) and the reader "
               "knows it is syntax-quoting; afterwards both stacks are as before", sq_post)
     add_template_readers(pack)
+    add_resolution(pack)
     for c in pack.contracts:
         if c.replay_ is None:
             c.replay(lambda m, ctx, ob: SQ_REPLAY)
@@ -471,6 +472,88 @@ def add_template_readers(pack):
         return z3.And(items[0] == z3.If(splice, a.eng.lift(rd._UNQUOTE_SPLICING, post), a.eng.lift(rd._UNQUOTE, post)), g2 == g0, q2 == q0)
 
     c.ensures("~@form reads as (unquote-splicing form) and ~form as (unquote form) - decided by the character after the tilde - and the context stacks are as before", unq_post)
+
+
+SPECIAL = z3.Function("is_special_form_symbol", V.Val, V.Val, z3.BoolSort())   # (ns, name) of a symbol in _SPECIAL_FORMS
+ALIAS = z3.Function("alias_lookup", V.Val, z3.StringSort(), V.Val)              # ns.get_alias(<symbol named n>)
+FIND = z3.Function("find_lookup", V.Val, z3.StringSort(), V.Val)                # ns.find(<unqualified symbol named n>)
+CURRENT_NS = z3.Const("current_ns", V.Val)
+
+
+def add_resolution(pack):
+    """``runtime.resolve_alias`` - what the reader calls for every symbol inside a syntax-quote: special forms stay as they
+    are; ``alias/x`` becomes ``<aliased namespace's name>/x`` when the namespace has that alias and stays otherwise;
+    an unqualified ``x`` becomes ``<ns of the Var>/<name of the Var>`` for the Var that ``ns.find`` gives for x, and
+    ``<this namespace's name>/x`` when there is none.  ``ns.get_alias`` / ``ns.find`` (C10) are used by contract, as
+    functions of the namespace and of the looked-up symbol's name (symbols are compared by namespace and name)."""
+    from basilisp.lang import runtime as rt, set as lset, symbol as sym
+
+    NS, VAR, SYM = rt.Namespace, rt.Var, sym.Symbol
+
+    def rsetup(eng, st):
+        for c in (NS, VAR, SYM, lset.PersistentSet):
+            eng.class_id(c)
+        eng.field_types[("Symbol", "_name")] = lambda v: V.is_str(v)
+        eng.field_types[("Symbol", "_ns")] = lambda v: z3.Or(V.is_none(v), V.is_str(v))
+        eng.field_types[("Namespace", "_name")] = lambda v: (has_class(eng, v, SYM), SYM)  # a namespace is named by a symbol
+        eng.field_types[("Var", "_name")] = lambda v: (has_class(eng, v, SYM), SYM)
+        eng.field_types[("Var", "_ns")] = lambda v: (has_class(eng, v, NS), NS)
+
+        def special(e, s, a, k):
+            self, x = a
+            if self is not rt._SPECIAL_FORMS:
+                raise Unsupported("membership in a set other than _SPECIAL_FORMS")
+            t = e.lift(x, s)
+            yield s, SV(V.mk_bool(SPECIAL(fld(s, t, "_ns"), fld(s, t, "_name"))))
+
+        eng.method_models[(lset.PersistentSet, "__contains__")] = Model("s in _SPECIAL_FORMS (a function of the symbol's ns and name)", special)
+
+        def lookup(fn, cls):
+            def model(e, s, a, k):
+                self, key = e.lift(a[0], s), e.lift(a[1], s)
+                e.oblige(s, "the looked-up symbol is unqualified", V.is_none(fld(s, key, "_ns")), "pre", 0)
+                r = fn(self, V.Val.s(fld(s, key, "_name")))
+                s.assume(z3.Or(V.is_none(r), z3.And(has_class(e, r, cls), V.Val.a(r) <= 0)))
+                yield s, SV(r)
+
+            return model
+
+        eng.method_models[(NS, "get_alias")] = Model("Namespace.get_alias (by contract, C10)", lookup(ALIAS, NS))
+        eng.method_models[(NS, "find")] = Model("Namespace.find (by contract, C10)", lookup(FIND, VAR))
+
+        def current(e, s, a, k):
+            s.assume(has_class(e, CURRENT_NS, NS), V.Val.a(CURRENT_NS) <= 0)
+            yield s, SV(CURRENT_NS, hint=NS)
+
+        eng.models[id(rt.get_current_ns)] = Model("get_current_ns (the namespace the template is written in)", current)
+
+    def is_sym(e, st, r, ns, name, new=True):
+        parts = [has_class(e, r, SYM), fld(st, r, "_ns") == ns, fld(st, r, "_name") == name]
+        return z3.And(*parts)
+
+    for given in (True, False):
+        c = pack.contract("basilisp.lang.runtime:resolve_alias")
+        c.label = "namespace given" if given else "current namespace"
+        c.param("s", OBJ(SYM)).param("ns", OBJ(NS) if given else T(lambda v: V.is_none(v), None, "None"))
+        c.setup(rsetup)
+        c.raises()
+
+        def post(a, given=given):
+            e, pre, st = a.eng, a.pre.st, a.post.st
+            where = a.ns if given else CURRENT_NS
+            s_ns, s_name = fld(pre, a.s, "_ns"), fld(pre, a.s, "_name")
+            al = ALIAS(where, V.Val.s(s_ns))
+            var = FIND(where, V.Val.s(s_name))
+            nsname = lambda n: fld(pre, fld(pre, n, "_name"), "_name")
+            qualified = z3.If(V.is_none(al), a.result == a.s, is_sym(e, st, a.result, nsname(al), s_name))
+            vname = fld(pre, var, "_name")
+            unqualified = z3.If(V.is_none(var), is_sym(e, st, a.result, nsname(where), s_name),
+                                is_sym(e, st, a.result, nsname(fld(pre, var, "_ns")), fld(pre, vname, "_name")))
+            return z3.If(SPECIAL(s_ns, s_name), a.result == a.s, z3.If(V.is_none(s_ns), unqualified, qualified))
+
+        c.ensures("a special form stays as it is; alias/x is qualified with the aliased namespace's name (and left alone without such an alias); an unqualified x becomes "
+                  "the fully qualified name of the Var it denotes in the namespace, or is qualified with that namespace when it denotes none", post)
+        c.modifies()
 
 
 SQ_REPLAY = r'''
